@@ -59,6 +59,9 @@ func strConverter(dec *Decoder, o interface{}, p interface{}) {
 		*(*string)(reflect2.PtrOf(p)) = o
 	case *string:
 		*(*string)(reflect2.PtrOf(p)) = *o
+	case []byte:
+		// a back-reference to a string that was written as bytes (it is not valid UTF-8)
+		*(*string)(reflect2.PtrOf(p)) = string(o)
 	case fmt.Stringer:
 		*(*string)(reflect2.PtrOf(p)) = o.String()
 	case fmt.GoStringer:
